@@ -152,7 +152,8 @@ def St.setRes (s : St) (n : Node) (v : Val) : St :=
 def St.hide (s : St) (ns : List Node) : St :=                                        -- hide_last_execution
   { s with resHid := fun x => if ns.contains x then true else s.resHid x,
            procHid := fun x => if ns.contains x then true else s.procHid x,
-           hideCount := fun x => if ns.contains x then s.hideCount x + 1 else s.hideCount x }
+           hideCount := fun x => if ns.contains x then s.hideCount x + 1 else s.hideCount x,
+           sw := fun x => if ns.contains x then none else s.sw x }    -- (fix: a restart forgets the decisions too)
 
 /-- named single-field updates (one frame lemma each in `Proofs/EngBasic.lean`) -/
 def St.setSw (s : St) (n : Node) (lc : Label × Node) : St := { s with sw := upd s.sw n (some lc) }
@@ -247,6 +248,20 @@ def recGraph (P : Program) (start dst : Node) (isOneof : Bool) : Option DagRef :
     | none => none
     | some ns => some { source := start, dest := some dst, nodes := ns, isRec := true, isOneof := isOneof }
 
+/-- (fix) `get_restricted_subgraph(_get_reduced_dag(input, dest), scope)`: the part of the recurrent scope that is
+executed as a DAG — the nodes of the scope that the destination needs through ordinary edges; case nodes and one-of
+candidates are run by their switch / one-of. `none` = networkx raised NodeNotFound -/
+def recLaunch (P : Program) (s : St) (scope : DagRef) (dst : Node) : Option DagRef :=
+  match reducedRef P s P.g.input dst false false false with
+  | none => none
+  | some r => some { scope with nodes := scope.nodes.filter r.nodes.contains }
+
+/-- the nodes a restart of `start → dst` invalidates: everything between the two on the unfiltered graph -/
+def recScopeNodes (P : Program) (start dst : Node) (isOneof : Bool) : List Node :=
+  match recGraph P start dst isOneof with
+  | some b => b.nodes
+  | none => []
+
 /-! ### readiness (`_get_predecessors`, `_is_ready_to_execute`) -/
 
 def predsFor (P : Program) (s : St) (d : DagRef) (n : Node) : List Node :=
@@ -276,7 +291,7 @@ def validOrder (P : Program) (s : St) (d : DagRef) (ord : List Node) : Bool :=
   ord.length == ex.length && ord.all ex.contains && ex.all ord.contains && ord.Nodup &&
   P.g.edges.all fun e =>
     if ord.contains e.u && ord.contains e.v &&
-        (d.isRec || (e.case.isNone && !((P.g.attr e.v).oneofNodes.contains e.u))) then posOf ord e.u < posOf ord e.v
+        (e.case.isNone && !((P.g.attr e.v).oneofNodes.contains e.u)) then posOf ord e.u < posOf ord e.v
     else true
 
 /-! ### `_get_node_kwargs` -/
@@ -417,7 +432,6 @@ def dagInit (c : Ctx) (s : St) (obs : List Obs) (d : DagRef) (below : List Frame
   let obs := obs ++ [.topo c.ord]
   let obs := if validOrder c.P s d c.ord then obs else obs ++ [.badOracle]
   let s := s.noteOrder (validOrder c.P s d c.ord)
-  let s := if d.isRec then s.hide c.ord else s
   match c.ord with
   | [] => retTo c s obs below .none
   | ord => dagLaunch c d below s obs ord
@@ -643,6 +657,7 @@ def recIter (c : Ctx) (s : St) (obs : List Obs) (d : DagRef) (n start : Node) (g
   if k < maxIter then
     let data := match r with | .recur x => x | _ => .none
     let s := s.setAdditional start data
+    let s := s.hide (recScopeNodes c.P start n d.isOneof)     -- (fix: everything between start and dest, not only the DAG)
     dagInit c s obs g (.recIterRet d n start g k :: below)
   else
     if r.isRecur && (c.P.cfg n).useDefault then
@@ -666,7 +681,10 @@ def recStart (c : Ctx) (s : St) (obs : List Obs) (d : DagRef) (n : Node) (r : Va
       let s := s.setActive ((start, n) :: s.active)
       match recGraph c.P start n d.isOneof with
       | none => raiseOut c s obs below (.exc ⟨"Other:NodeNotFound", 0, 0, 0⟩)
-      | some g => recIter c s obs d n start g 0 r below
+      | some b =>
+        match recLaunch c.P s b n with
+        | none => raiseOut c s obs below (.exc ⟨"Other:NodeNotFound", 0, 0, 0⟩)
+        | some g => recIter c s obs d n start g 0 r below
 
 /-- errors of finished, non-cancelled engine tasks (`_get_first_error_in_tasks` after the fix) -/
 def taskErrors (s : St) : List Exc :=
